@@ -536,6 +536,204 @@ def derived_ops(ast):
         rows.setdefault(key, {"nparams": len(params), "body": body})
     return rows
 
+
+# ---------------------------------------------------------------------------
+# factories and interface accessors
+# ---------------------------------------------------------------------------
+FACTORY_CLASSES = ("type_factory", "name_factory", "expr_factory", "dir_factory", "stmt_factory", "Lexicon",
+                   "form_factory", "attr_factory", "capture_spec_factory")
+
+
+_WRAP = {"ImplicitCastExpr", "MaterializeTemporaryExpr", "CXXBindTemporaryExpr", "ExprWithCleanups", "CXXConstructExpr",
+         "ParenExpr"}
+
+SORTS = [
+    ("const ipr::Expr &", "E"), ("const ipr::Type &", "T"), ("const ipr::Region &", "R"), ("const ipr::Identifier &", "I"),
+    ("const ipr::Name &", "N"), ("const ipr::String &", "S"), ("const ipr::Token &", "TK"), ("const ipr::Product &", "P"),
+    ("const ipr::Sum &", "U"), ("const ipr::Expr_list &", "XL"), ("const ipr::Attribute &", "A"), ("const ipr::Transfer &", "X"),
+    ("const ipr::Sequence<ipr::Attribute> &", "As"), ("const ipr::Decl &", "D"), ("const ipr::Linkage &", "LK"),
+    ("const ipr::Calling_convention &", "CC"), ("const ipr::Capture_specification::Named &", "NC"),
+    ("const ipr::Scope_ref &", "SR"), ("const ipr::Scope &", "SC"), ("const ipr::Literal &", "L"),
+    ("const ipr::Enclosure &", "EN"), ("const ipr::Parameter &", "PA"), ("const ipr::Substitution &", "SU"),
+    ("const ipr::Construction &", "CO"), ("const ipr::Template &", "TM"), ("const ipr::Block &", "B"),
+    ("const cxx_form::Elemental_initializer &", "IN"), ("const ipr::cxx_form::Elemental_initializer &", "IN"),
+    ("const cxx_form::Species_declarator &", "SP"), ("const ipr::cxx_form::Species_declarator &", "SP"),
+    ("ipr::Qualifiers", "q"), ("ipr::Mapping_level", "lvl"), ("ipr::Binding_mode", "bm"), ("ipr::Phases", "ph"),
+    ("ipr::Using_declaration::Designator::Mode", "dm"), ("ipr::Category_code", "cc"), ("ipr::Delimiter", "dl"),
+    ("ipr::cxx_form::Reference_flavor", "rf"), ("ipr::Enum::Kind", "ek"), ("ipr::TokenValue", "tv"), ("ipr::TokenCategory", "tc"),
+    ("ipr::Optional<ipr::Type>", "T?"), ("ipr::Optional<ipr::String>", "S?"), ("ipr::Optional<ipr::Expr_list>", "XL?"),
+    ("std::basic_string_view<char8_t>", "w"), ("const ipr::Sequence<ipr::Type> &", "Ts"),
+    ("const Warehouse<ipr::Type> &", "Tw"), ("const ipr::impl::Warehouse<ipr::Type> &", "Tw"),
+    ("const ipr::Source_location &", "loc"),
+]
+
+
+def sort_code(ptype):
+    for t, c in SORTS:
+        if t == ptype:
+            return c
+    return "?" + ptype
+
+
+def _param_ref(e, pidx):
+    while True:
+        k = e.get("kind")
+        if k == "DeclRefExpr":
+            return pidx.get(e.get("referencedDecl", {}).get("id"))
+        if k == "UnaryOperator" and e.get("opcode") in ("&", "*") and children(e):
+            e = children(e)[0]
+            continue
+        if k in _WRAP and len(children(e)) == 1:
+            e = children(e)[0]
+            continue
+        return None
+
+
+def _member_name(e):
+    while e.get("kind") in _WRAP and len(children(e)) == 1:
+        e = children(e)[0]
+    return e.get("name") if e.get("kind") == "MemberExpr" else None
+
+
+def factory_call(n, stmts):
+    """for a body that is one return statement building the node with make/insert: which parameter goes
+    where.  {'farm', 'args': [param index | None], 'with_type': param index | None} or None (opaque body)."""
+    if len(stmts) != 1 or stmts[0].get("kind") != "ReturnStmt":
+        return None
+    pidx = {c["id"]: i for i, c in enumerate(children(n, "ParmVarDecl"))}
+    found, wt = None, None
+    for m, _ in walk(stmts[0]):
+        if m.get("kind") not in ("CallExpr", "CXXMemberCallExpr") or not children(m):
+            continue
+        f = children(m)[0]
+        while f.get("kind") == "ImplicitCastExpr" and children(f):
+            f = children(f)[0]
+        args = children(m)[1:]
+        if f.get("kind") == "MemberExpr" and f.get("name") == "with_type" and len(args) == 1:
+            wt = _param_ref(args[0], pidx)
+            if wt is None:
+                return None
+        elif f.get("kind") == "MemberExpr" and f.get("name") == "make" and children(f):
+            farm = _member_name(children(f)[0])
+            if farm is None or found is not None:
+                return None
+            found = {"farm": farm, "args": [_param_ref(a, pidx) for a in args]}
+        elif f.get("kind") == "DeclRefExpr" and f.get("referencedDecl", {}).get("name") == "make" and args:
+            farm = _member_name(args[0])
+            if farm is None or found is not None:
+                return None
+            found = {"farm": farm, "args": [_param_ref(a, pidx) for a in args[1:]]}
+    if found is None:
+        return None
+    found["with_type"] = wt
+    return found
+
+
+def factories(ast):
+    """member functions of the factory classes: signature, whether defined, body shape"""
+    by_mangled = {}
+    for n, p in ast.nodes:
+        if n.get("kind") != "CXXMethodDecl" or n.get("isImplicit"):
+            continue
+        mn = n.get("mangledName", "")
+        names = [x for x in p if isinstance(x, str)]
+        owner = None
+        for fc in FACTORY_CLASSES:
+            if fc in names:
+                owner = fc
+        if owner is None and n.get("parentDeclContextId"):
+            pd = ast.ids.get(n["parentDeclContextId"])
+            if pd is not None and pd.get("name") in FACTORY_CLASSES:
+                owner = pd.get("name")
+        if owner is None:
+            continue
+        nm = n.get("name", "")
+        if nm.startswith("operator") or nm.startswith("~") or nm == owner:
+            continue
+        ps = [c for c in children(n, "ParmVarDecl")]
+        sig = tuple(c["type"].get("desugaredQualType", c["type"]["qualType"]).replace("ipr::impl::", "").replace("impl::", "").replace("ipr::", "") for c in ps)
+        e = by_mangled.setdefault((owner, nm, sig), {"class": owner, "name": nm, "type": n["type"]["qualType"], "mangled": mn,
+                                        "params": [], "defined": False, "shape": None, "access": None})
+        if ps and not e["params"]:
+            e["params"] = [{"type": c["type"].get("desugaredQualType", c["type"]["qualType"]), "written": c["type"]["qualType"],
+                            "sort": sort_code(c["type"].get("desugaredQualType", c["type"]["qualType"])),
+                            "default": any(x.get("kind") not in () for x in children(c))} for c in ps]
+        if has_body(n):
+            e["defined"] = True
+            stmts = children(body_of(n))
+            e["call"] = factory_call(n, stmts)
+            txt = json.dumps(stmts)
+            shape = "other"
+            if len(stmts) == 1 and stmts[0].get("kind") == "ReturnStmt":
+                if '"name": "with_type"' in txt:
+                    shape = "make.with_type"
+                elif '"name": "make"' in txt:
+                    shape = "farm.make"
+                elif '"name": "insert"' in txt:
+                    shape = "table.insert"
+                else:
+                    shape = "delegate"
+            e["shape"] = shape
+            e["nstmts"] = len(stmts)
+    out = []
+    for mn, e in by_mangled.items():
+        t = e["type"]
+        ret = t.split("(", 1)[0].strip()
+        e["ret"] = ret
+        r_ = re.sub(r"[*&]", "", ret.replace("const ", "")).strip()
+        e["result"] = ("Capture_specification::" if "Capture_specification::" in r_ else "") + r_.split("::")[-1]
+        e.setdefault("call", None)
+        out.append(e)
+    out.sort(key=lambda e: (e["class"], e["name"], e["type"]))
+    return out
+
+
+def accessor_names(ast):
+    """names of the const, parameterless member functions of the interface classes"""
+    names = {}
+    for n, p in ast.nodes:
+        if n.get("kind") != "CXXMethodDecl" or n.get("isImplicit"):
+            continue
+        ps = [x for x in p if isinstance(x, str)]
+        if not ps or ps[0] != "ipr" or "impl" in ps or "util" in ps:
+            continue
+        if children(n, "ParmVarDecl"):
+            continue
+        t = n.get("type", {}).get("qualType", "")
+        if not t.rstrip().endswith("const"):
+            continue
+        nm = n.get("name", "")
+        if nm.startswith("operator") or nm in ("accept", "begin", "end"):
+            continue
+        names.setdefault(nm, {"pure": False, "classes": []})
+        if n.get("pure"):
+            names[nm]["pure"] = True
+        c = class_key(p)
+        if c not in names[nm]["classes"]:
+            names[nm]["classes"].append(c)
+    return names
+
+
+def iface_shapes(ast):
+    """interface class -> Unary / Binary / Ternary / Other, from its declared base"""
+    out = {}
+    for o in ast.objs:
+        for n, p in walk(o):
+            if n.get("kind") == "CXXRecordDecl" and n.get("completeDefinition") and n.get("bases") and \
+                    [x for x in p if isinstance(x, str)][:1] == ["ipr"] and "impl" not in p:
+                b = n["bases"][0]["type"].get("desugaredQualType", n["bases"][0]["type"]["qualType"])
+                shape = "Other"
+                for k in ("Unary", "Binary", "Ternary"):
+                    if b.startswith("ipr::" + k + "<") or b.startswith(k + "<"):
+                        shape = k
+                if "Member_selection<" in b or "Cast_expr<" in b:
+                    shape = "Binary"
+                key = class_key(p + (n.get("name"),))
+                if b.startswith("ipr::Capture_specification") and "::" not in key:
+                    key = "Capture_specification::" + key          # nested class defined out of line
+                out.setdefault(key, {"shape": shape, "base": b})
+    return out
+
 # ---------------------------------------------------------------------------
 # reflection probe (compiled with the real compiler)
 # ---------------------------------------------------------------------------
@@ -612,6 +810,9 @@ def extract(workdir):
     facts["statics"] = statics(asts)
     facts["stores"] = store_facts(impl)
     facts["derived"] = derived_ops(ast_uses)
+    facts["factories"] = factories(impl)
+    facts["accessor_names"] = accessor_names(impl)
+    facts["iface_shapes"] = iface_shapes(impl)
     return facts, asts
 
 
